@@ -18,7 +18,8 @@ import re
 from gen import srcgen
 from vlib import core, gencode
 
-COQ_TARGETS = ["Props/C01.vo", "Model/GoSemChecks.vo", "Model/Src.vo", "Model/FrontEnd.vo", "Model/FrontEndSpec.vo", "Model/FrontEndCue.vo"]
+COQ_TARGETS = ["Props/C01.vo", "Model/GoSemChecks.vo", "Model/Src.vo", "Model/FrontEnd.vo", "Model/FrontEndSpec.vo", "Model/FrontEndSpecOA.vo", "Model/FrontEndSpecCue.vo",
+               "Model/FrontEndCue.vo"]
 PROPS = "Props/C01.v"
 TRUSTED = [
     "hand-written Gallina model of encoding/json driven by the generated declarations and of the generated (strict) unmarshalers/marshalers (coq/Model/GoSemDecode.v, GoSemStrict.v), validated only on generated cases",
@@ -325,7 +326,7 @@ def run(ctx, verdict, replay=None, model_ok=True):
                       "which": [{"jsonschema": "MM_FE_JS", "openapi": "MM_FE_OA", "cue": "MM_FE_CUE"}[m["fmt"]]]} for m in fe["mismatching"][:10]]
     for ex in src_stats.get("parse_preserves_acceptance_examples", [])[:5]:
         fe_mismatches.append({"job": {"fmt": ex["fmt"], "pkg": ex["pkg"], "schema_text": ex["schema_text"], "type": "Root",
-                                      "docs": [ex["doc"]], "meta": {"what": "src_valid <> ir_accepts (parse_jsonschema s)"}},
+                                      "docs": [ex["doc"]], "meta": {"what": "src_valid <> ir_accepts (parse_%s s)" % ex["fmt"]}},
                               "which": ["MM_FE_ACCEPT"]})
 
     # ---- coverage
@@ -419,21 +420,30 @@ def src_valid_stream(ctx, camp, plan, live, verdicts):
 
     def do(k):
         ids = shards[k]
-        pre = ("From Coq Require Import List String ZArith Bool.\nFrom Cog Require Import Model.Json Model.Src Model.FrontEnd Model.FrontEndSpec.\nImport ListNotations.\nLocal Open Scope string_scope.\n"
+        pre = ("From Coq Require Import List String ZArith Bool.\nFrom Cog Require Import Model.Json Model.Src Model.FrontEnd Model.FrontEndSpec Model.FrontEndSpecOA Model.FrontEndSpecCue.\nImport ListNotations.\nLocal Open Scope string_scope.\n"
                "Definition cases : list (src_schema * string * string * json * bool) :=\n[%s].\n" % ";\n".join(cases[x] for x in ids))
         pre += ("Fixpoint indices_from {A} (f : A -> bool) (l : list A) (i : nat) : list nat :=\n"
                 "  match l with [] => [] | x :: r => if f x then i :: indices_from f r (S i) else indices_from f r (S i) end.\n")
         r = core.coq_eval_lists(ctx, "srcvalid_%d" % k, pre, [("DIS", "indices_from src_valid_disagrees cases 0"),
                                                              ("ACC", "indices_from fe_accept_disagrees cases 0"),
                                                              ("DOM", "indices_from fe_accept_in_domain cases 0"),
-                                                             ("DOMW", "indices_from fe_accept_weak_domain cases 0")])
-        return [ids[x] for x in r["DIS"]], [ids[x] for x in r["ACC"]], len(r["DOM"]), len(r["DOMW"])
+                                                             ("DOMW", "indices_from fe_accept_weak_domain cases 0"),
+                                                             ("ACCOA", "indices_from fe_oa_accept_disagrees cases 0"),
+                                                             ("DOMOA", "indices_from fe_oa_accept_in_domain cases 0"),
+                                                             ("ACCCUE", "indices_from fe_cue_accept_disagrees cases 0"),
+                                                             ("DOMCUE", "indices_from fe_cue_accept_in_domain cases 0")])
+        return ([ids[x] for x in r["DIS"]], [ids[x] for x in r["ACC"]], len(r["DOM"]), len(r["DOMW"]),
+                [ids[x] for x in r["ACCOA"]], len(r["DOMOA"]), [ids[x] for x in r["ACCCUE"]], len(r["DOMCUE"]))
 
     parts = core.parallel(do, list(range(len(shards))))
     dis = sorted(x for part in parts for x in part[0])
     acc = sorted(x for part in parts for x in part[1])
     dom = sum(part[2] for part in parts)
     domw = sum(part[3] for part in parts)
+    acc_oa = sorted(x for part in parts for x in part[4])
+    dom_oa = sum(part[5] for part in parts)
+    acc_cue = sorted(x for part in parts for x in part[6])
+    dom_cue = sum(part[7] for part in parts)
     by_fmt = {}
     examples = []
     for x in dis:
@@ -443,6 +453,14 @@ def src_valid_stream(ctx, camp, plan, live, verdicts):
         if len(examples) < 4:
             examples.append({"format": fmt, "doc": camp.jobs[i]["docs"][d]})
     acc_examples = []
+    for x in acc_cue[:4]:
+        i, d = owners[x]
+        acc_examples.append({"fmt": "cue", "pkg": camp.jobs[i]["sid"], "schema_text": camp.texts[camp.jobs[i]["sid"]],
+                             "doc": camp.jobs[i]["docs"][d]})
+    for x in acc_oa[:4]:
+        i, d = owners[x]
+        acc_examples.append({"fmt": "openapi", "pkg": camp.jobs[i]["sid"], "schema_text": camp.texts[camp.jobs[i]["sid"]],
+                             "doc": camp.jobs[i]["docs"][d]})
     for x in acc[:4]:
         i, d = owners[x]
         acc_examples.append({"fmt": "jsonschema", "pkg": camp.jobs[i]["sid"], "schema_text": camp.texts[camp.jobs[i]["sid"]],
@@ -451,6 +469,10 @@ def src_valid_stream(ctx, camp, plan, live, verdicts):
             "parse_preserves_acceptance_documents_in_domain": dom, "parse_preserves_acceptance_counterexamples": len(acc),
             # documents meeting every hypothesis of the PROVED theorem parse_preserves_acceptance_partial_weak
             "parse_preserves_acceptance_documents_in_proved_domain": domw,
+            "parse_openapi_preserves_acceptance_documents_in_domain": dom_oa,
+            "parse_openapi_preserves_acceptance_counterexamples": len(acc_oa),
+            "parse_cue_preserves_acceptance_documents_in_domain": dom_cue,
+            "parse_cue_preserves_acceptance_counterexamples": len(acc_cue),
             "parse_preserves_acceptance_examples": acc_examples}
 
 
@@ -492,7 +514,7 @@ def frontend_stream(ctx, camp, plan, verbose=False, formats=("jsonschema", "open
 
         def do(k, fmt=fmt, cases=cases, shards=shards, f_unm=f_unm, f_mm=f_mm):
             ids = shards[k]
-            pre = ("From Coq Require Import List String ZArith Bool.\nFrom Cog Require Import Model.IR Model.Json Model.Src Model.FrontEnd Model.FrontEndSpec Model.FrontEndCue.\n"
+            pre = ("From Coq Require Import List String ZArith Bool.\nFrom Cog Require Import Model.IR Model.Json Model.Src Model.FrontEnd Model.FrontEndSpec Model.FrontEndSpecOA Model.FrontEndCue.\n"
                    "Import ListNotations.\nLocal Open Scope string_scope.\n"
                    "Definition cases : list (src_schema * option schemas) :=\n[%s].\n" % ";\n".join(cases[x] for x in ids))
             pre += ("Fixpoint indices_from {A} (f : A -> bool) (l : list A) (i : nat) : list nat :=\n"
@@ -506,6 +528,10 @@ def frontend_stream(ctx, camp, plan, verbose=False, formats=("jsonschema", "open
                          # members meeting the hypotheses of parse_jsonschema_keeps_constraints_partial_weak
                          ("KDOM", "map (fun c => if src_wf (fst c) then schema_kept_domain (fst c) else O) cases"),
                          ("KCEX", "map (fun c => if src_wf (fst c) then schema_kept_counterexamples (fst c) else O) cases")]
+            if fmt == "openapi":
+                # parse_openapi_keeps_constraints on data: KEPT_BAD must stay empty
+                defs += [("KEPT_BAD", "indices_from (fun c => src_wf_oa (fst c) && negb (oa_schema_fields_kept (fst c)))%bool cases 0"),
+                         ("WF", "indices_from (fun c => src_wf_oa (fst c)) cases 0")]
             r = core.coq_eval_lists(ctx, "fe_%s_%d" % (fmt, k), pre, defs)
             extra = {k_: [ids[x] for x in r[k_]] for k_ in ("KEPT_BAD", "TA", "WF") if k_ in r}
             extra["KDOM"] = sum(r.get("KDOM", []))
@@ -526,6 +552,11 @@ def frontend_stream(ctx, camp, plan, verbose=False, formats=("jsonschema", "open
                 "keeps_constraints_members_in_proved_domain": sum(p_[2].get("KDOM", 0) for p_ in parts),
                 "keeps_constraints_members_in_proved_domain_not_kept": sum(p_[2].get("KCEX", 0) for p_ in parts),
                 "schemas_with_the_constrained_type_array_shape_losing_constraints": sum(len(p_[2].get("TA", [])) for p_ in parts)})
+        if fmt == "openapi":
+            kb = sorted(x for p_ in parts for x in p_[2].get("KEPT_BAD", []))
+            out["per_format"][fmt].update({"well_formed_schemas": sum(len(p_[2].get("WF", [])) for p_ in parts),
+                                           "keeps_constraints_counterexamples": len(kb)})
+        if fmt in ("jsonschema", "openapi"):
             for x in kb:
                 out["mismatching"].append({"fmt": fmt, "pkg": items[x][0], "schema_text": camp.texts[items[x][0]],
                                            "what": "field facts not kept", "src_gallina": _src_term(items[x][1])})
